@@ -12,6 +12,26 @@ NOTES = ("Contract-based deductive verification (pyvc). Every claimed check is a
          "3 checker defect.")
 
 PROPERTIES = {
+    "C01": {
+        "claim": "Proof for the receive-side reassembly queue (InboundStream) and the DATA chunk codec: DataChunk serialise/"
+                 "parse round trip on every field and payload length; add_chunk inserts the chunk at one position between a "
+                 "predecessor that is not serially later and a successor that is (32-bit serial order), moving nothing else; "
+                 "prune_chunks removes exactly the maximal prefix at or before the given TSN; pop_messages, at the head of the "
+                 "queue: an ordered message whose stream sequence number is serially ahead of the expected one is held back with "
+                 "everything behind it (all 16-bit pairs, also across the wrap), an ordered stream whose head is not a first "
+                 "fragment delivers nothing, a complete single-fragment message that is due is delivered first with exactly its "
+                 "stream id, protocol and payload; it terminates and raises nothing. Reduced: the general statement about every "
+                 "yielded run (consecutive TSNs, B..E, concatenation), _mark_received, _receive_data_chunk, the send side and "
+                 "the whole-history 'prefix of the sends' statement are not decided.",
+        "note": "add_chunk assumes what its only caller establishes: no duplicate TSN in the queue (filtered by _mark_received) "
+                "and live TSNs within half the number space of each other (A-WINDOW).",
+        "design_ref": "DESIGN.md 4.1, 9",
+        "trusted_base": COMMON,
+        "assumptions": ["A-WINDOW: live TSNs lie within 2^31 of each other"],
+        "not_decided": ["every yielded message is a consecutive-TSN run from a B chunk to the first E chunk (general O-5)",
+                        "_mark_received / _receive_data_chunk / _data_channel_receive", "_send fragmentation",
+                        "induction over network histories (exactly once, prefix)"],
+    },
     "C05": {
         "claim": "Proof, for the RTP/RTCP wire parsers under contract (rtp.py: unpack_remb_fci, unpack_header_extensions, "
                  "unpack_packets_lost, RtcpReceiverInfo.parse, RtcpSenderInfo.parse, RtcpPsfbPacket.parse, RtcpByePacket.parse, "
@@ -216,7 +236,6 @@ PROPERTIES = {
 _NOT_BUILT = ("not claimed: the function contracts planned for it in DESIGN.md section 4 were not built in the time "
               "available, so nothing decides it; no check is registered rather than a weaker technique substituted")
 NOT_APPLICABLE = {
-    "C01": _NOT_BUILT + " (SCTP association: _send/_receive_data_chunk/InboundStream; whole-history part is outside contracts anyway)",
     "C02": "liveness over fault histories is not expressible as a function contract; the planned necessary-condition contracts (flight-size accounting, F-14) were not built",
     "C03": _NOT_BUILT + " (negotiation algebra); 'the session actually connects' is outside contracts (DESIGN 4.3)",
     "C04": "OpenSSL handshake, key export and libsrtp are external C code; the repo-owned fingerprint comparison contract was not built (DESIGN 4.4)",
